@@ -56,6 +56,17 @@ func init() {
 			out = append(out, Instance{Scenario: "c05_savewindow", Params: mustJSON(SaveWinParams{Savers: 1, Faults: true, PreSave: true}), Bound: 2, Shards: 4})
 			out = append(out, Instance{Scenario: "c05_savewindow", Params: mustJSON(SaveWinParams{Savers: 1, Reserved: true, PreSave: true}), Bound: 2, Shards: 4})
 			out = append(out, Instance{Scenario: "c05_savewindow", Params: mustJSON(SaveWinParams{Inject: true, PreSave: true}), Bound: 1, Shards: 4, Note: "a whole save injected at every scheduling point of the acknowledging thread"})
+			// sequential histories with rejected saves: every successful save stores, for every vBucket, the
+			// furthest position settled before it as the untorn tuple of that very event (also when newer
+			// snapshots have been announced meanwhile), a rejected save forgets nothing
+			seq := []Instance{}
+			for _, l := range []string{"backtoback", "seqadv", "multi"} {
+				d := 6
+				if tier == "thorough" {
+					d = 7
+				}
+				seq = append(seq, Instance{Scenario: "pipe", Params: mustJSON(PipeParams{Mode: "script", Layout: l, Depth: d, Ops: []string{"deliver0", "deliver1", "ackold", "acknew", "commit"}, Faults: true}), Bound: 0, Shards: 4})
+			}
 			if tier == "thorough" {
 				for i := range out {
 					out[i].Bound = 3
@@ -63,6 +74,7 @@ func init() {
 				}
 				out = append(out, Instance{Scenario: "c05_savewindow", Params: mustJSON(SaveWinParams{Savers: 2, Faults: true, PreSave: true}), Bound: 3, Shards: 16})
 			}
+			out = append(out, seq...)
 			return out
 		},
 	})
